@@ -186,10 +186,12 @@ def make_case(rng, tier):
     L = rng.randint(1, 8 if tier == "quick" else 20)
     hist = treehist.gen_history(rng, net, L)
     track = [rng.random() < 0.3 for _ in range(3)]
-    return {"net": net.json(), "tree": tree, "track": track, "history": hist}
+    return {"net": net.json(), "tree": tree, "track": track, "history": hist,
+            "alphabet": rng.choice(gen.ALPHABETS)}
 
 
 def build(case):
+    gen.set_alphabet(case.get("alphabet", "ascii"), len(case.get("history", [])))
     net = gen.Net.from_json(case["net"])
     tr = case.get("track", [False] * 3)
     tree = gen.real_tree(ctg, net, case["tree"], track_flops=tr[0], track_write=tr[1], track_size=tr[2])
